@@ -10,10 +10,10 @@
 EXTENDS FamiliesE, Json
 
 VARIABLE s   \* [replace, patch, convert, derive, builder : BOOLEAN, map : STRING]
-Init == s = [replace |-> FALSE, patch |-> FALSE, convert |-> FALSE, derive |-> FALSE, builder |-> FALSE, map |-> "hash"]
+Init == s = [replace |-> FALSE, patch |-> FALSE, convert |-> "none", derive |-> FALSE, builder |-> FALSE, map |-> "hash"]
 Next == \/ ~s.replace /\ ~s.patch /\ s' = [s EXCEPT !.replace = TRUE]
         \/ ~s.patch /\ ~s.replace /\ s' = [s EXCEPT !.patch = TRUE]
-        \/ ~s.convert /\ s' = [s EXCEPT !.convert = TRUE]
+        \/ s.convert = "none" /\ \E cv \in {"bare", "annotated"} : s' = [s EXCEPT !.convert = cv]
         \/ ~s.derive /\ s' = [s EXCEPT !.derive = TRUE]
         \/ ~s.builder /\ s' = [s EXCEPT !.builder = TRUE]
         \/ s.map = "hash" /\ \E m \in {"btree", "mymap"} : s' = [s EXCEPT !.map = m]
@@ -27,7 +27,8 @@ Hub == SObj(
  @@ Props3("var", SRef("HubVar"), "nested", SObj(Props1("inner", RefT), {"inner"}), "merged", SAllOf(<<RefT, SObj(Props1("z", SInt), {})>>))
  @@ Props3("fmap", SMap(SInt), "anymap", SMap(STrue), "num", SNum)
  @@ Props3("numarr", SArr(SNum), "numopt", SNullable(SNum), "nummap", SMap(SNum))
- @@ Props1("numtup", STuple(<<SNum, SStr>>)),
+ @@ Props3("numtup", STuple(<<SNum, SStr>>), "numdesc", With(SNum, "description", "annotated use"),
+           "numdescarr", SArr(With(SNum, "description", "annotated item"))),
     {"direct", "tup", "nested"})
 HubVar == SOneOf(<< ExtVar("A", RefT), ExtVar("B", SInt), ExtVar("N", SNum) >>)
 Other == SObj(Props3("s", SStr, "n", SInt, "m", SMap(SStr)), {"s"})
@@ -39,13 +40,15 @@ Settings ==
     @@ (IF s.derive THEN [derives |-> <<"PartialEq">>] ELSE << >>)
     @@ (IF s.replace THEN [replace |-> [Tgt |-> [ty |-> "crate::support::ReplT", impls |-> << >>]]] ELSE << >>)
     @@ (IF s.patch THEN [patch |-> [Tgt |-> [rename |-> "Renamed", derives |-> <<"Eq", "PartialEq">>]]] ELSE << >>)
-    @@ (IF s.convert THEN [convert |-> << [schema |-> SNum, ty |-> "crate::support::Num", impls |-> <<"Display">>] >>] ELSE << >>)
+    @@ (IF s.convert # "none"
+        THEN [convert |-> << [schema |-> IF s.convert = "bare" THEN SNum ELSE With(SNum, "description", "a number"),
+                              ty |-> "crate::support::Num", impls |-> <<"Display">>] >>] ELSE << >>)
 
 ProbesFor(def, sch) == LET cs == Candidates(sch, Defs, 2) IN
     [j \in DOMAIN cs |-> [kind |-> "deser", ty |-> [def |-> def], val |-> cs[j], on |-> def]]
 
 Emit == PrintT(<<"CASE", ToJson([fam |-> "C14", id |-> "hub", s |-> s, baseline |-> (s = [replace |-> FALSE, patch |-> FALSE,
-                                      convert |-> FALSE, derive |-> FALSE, builder |-> FALSE, map |-> "hash"]),
+                                      convert |-> "none", derive |-> FALSE, builder |-> FALSE, map |-> "hash"]),
                                  settings |-> Settings,
                                  calls |-> << [call |-> "add_root_schema", doc |-> [defs |-> Defs]] >>,
                                  probes |-> ProbesFor("Other", Other) \o ProbesFor("Col", Col)])>>)
